@@ -7,6 +7,7 @@ import (
 	"strings"
 
 	"github.com/pip-services3-gox/pip-services3-expressions-gox/calculator"
+	cparsers "github.com/pip-services3-gox/pip-services3-expressions-gox/calculator/parsers"
 	ctok "github.com/pip-services3-gox/pip-services3-expressions-gox/calculator/tokenizers"
 	"github.com/pip-services3-gox/pip-services3-expressions-gox/calculator/variables"
 	"github.com/pip-services3-gox/pip-services3-expressions-gox/csv"
@@ -34,12 +35,13 @@ func init() { Register(propC19{}) }
 
 func (propC19) ID() string { return "C19" }
 
-var c19Kinds = []string{"calculator", "template", "gentok", "exprtok", "csvtok", "musttok"}
+var c19Kinds = []string{"calculator", "template", "gentok", "exprtok", "csvtok", "musttok", "exprparser", "mustparser"}
 
 func (propC19) Gen(r *Rand) *Plan {
 	p := &Plan{Config: map[string]string{}}
 	p.Config["ops"] = r.Pick([]string{"unsafe", "unsafe", "safe"})
 	ntasks := r.Range(2, 4)
+	p.Config["order"] = r.Pick([]string{"ref-first", "conc-first"})
 	p.Config["maporder"] = "0"
 	if r.Bool(0.75) {
 		p.Config["maporder"] = fmt.Sprint(1 + r.Int63())
@@ -73,6 +75,9 @@ func (propC19) Gen(r *Rand) *Plan {
 		g.Mixed = r.Bool(0.5)
 		text := g.Top()
 		p.Setup = []Op{{Op: "SetExpression", S: text}}
+		if r.Bool(0.15) {
+			p.Config["setup"] = "tokens" // compiled through SetOriginalTokens
+		}
 		for t := 0; t < ntasks; t++ {
 			tp := TaskPlan{Sets: []VarSet{g.GenVarSet(r), g.GenVarSet(r)}}
 			for i, n := 0, r.Range(1, 4); i < n; i++ {
@@ -117,8 +122,10 @@ func (propC19) Gen(r *Rand) *Plan {
 					vs[k] = VStr(v)
 				}
 				tp.Sets = []VarSet{vs}
-			case "musttok":
+			case "musttok", "mustparser":
 				tp.Text = NewTmplGen(r).Gen(2)
+			case "exprparser":
+				tp.Text = NewExprGen(r).Top()
 			case "csvtok":
 				tp.Text = r.Pick([]string{"a,b\r\n\"x,\"\"y\",2\n", "1,2,3\n\r4", "é,λ\r\n,", "\"unterminated,1"})
 			default:
@@ -314,6 +321,14 @@ func useSeparate(kind, text string, vs VarSet, ops string, slot *c19Slot) {
 		slot.toks = csv.NewCsvTokenizer().TokenizeBuffer(text)
 	case "musttok":
 		slot.toks = mtok.NewMustacheTokenizer().TokenizeBuffer(text)
+	case "exprparser":
+		ep := cparsers.NewExpressionParser()
+		slot.err = ep.ParseString(text)
+		slot.str = describeExprTokensNoFmt(ep.ResultTokens(), ep.VariableNames())
+	case "mustparser":
+		mp := mparsers.NewMustacheParser()
+		slot.err = mp.ParseString(text)
+		slot.str = joinStrings(mp.VariableNames())
 	default:
 		slot.str = "unknown-kind"
 	}
@@ -381,32 +396,11 @@ func (propC19) Exec(p *Plan, x *Ctx) *Outcome {
 	var snapBefore string
 	varsBefore := make([][]string, ntasks)
 
-	// ---- sequential reference phase (calling goroutine, before any task is forked)
+	// ---- setup phase: the shared instance, the tasks' variable collections and the
+	// snapshots are always built first, on the calling goroutine, before any task is forked
 	run.Solo(func() {
 		switch p.Scenario {
 		case "shared-calculator":
-			for t, tp := range p.Tasks {
-				for i, o := range tp.Ops {
-					var s c19Slot
-					run.ResetOpSteps()
-					func() {
-						defer func() {
-							if pv := recover(); pv != nil {
-								s.panicV = pv
-							}
-							s.done = true
-						}()
-						c := calculator.NewExpressionCalculator()
-						c.SetVariantOperations(opsManager(ops))
-						if err := c.SetExpression(setupText); err != nil {
-							s.err = err
-							return
-						}
-						s.res, s.err = c.EvaluateUsingVariables(buildVars(getSet(tp, o.Set)))
-					}()
-					ref[t][i] = s.describe()
-				}
-			}
 			run.ResetOpSteps()
 			sharedCalc = calculator.NewExpressionCalculator()
 			sharedCalc.SetVariantOperations(opsManager(ops))
@@ -416,7 +410,14 @@ func (propC19) Exec(p *Plan, x *Ctx) *Outcome {
 						setupErr = fmt.Errorf("panic: %v", pv)
 					}
 				}()
-				setupErr = sharedCalc.SetExpression(setupText)
+				if p.Cfg("setup", "") == "tokens" {
+					// SetOriginalTokens reports no error: make sure the text parses at all first
+					if setupErr = calculator.NewExpressionCalculator().SetExpression(setupText); setupErr == nil {
+						sharedCalc.SetOriginalTokens(exprOriginalTokens(setupText))
+					}
+				} else {
+					setupErr = sharedCalc.SetExpression(setupText)
+				}
 			}()
 			for t, tp := range p.Tasks {
 				for s := range tp.Sets {
@@ -434,27 +435,6 @@ func (propC19) Exec(p *Plan, x *Ctx) *Outcome {
 				snapBefore = snapshotCalc(sharedCalc)
 			}
 		case "shared-template":
-			for t, tp := range p.Tasks {
-				for i, o := range tp.Ops {
-					var s c19Slot
-					run.ResetOpSteps()
-					func() {
-						defer func() {
-							if pv := recover(); pv != nil {
-								s.panicV = pv
-							}
-							s.done = true
-						}()
-						tm := mustache.NewMustacheTemplate()
-						if err := tm.SetTemplate(setupText); err != nil {
-							s.err = err
-							return
-						}
-						s.str, s.err = tm.EvaluateWithVariables(buildMap(getSet(tp, o.Set)))
-					}()
-					ref[t][i] = s.describe()
-				}
-			}
 			run.ResetOpSteps()
 			sharedTmpl = mustache.NewMustacheTemplate()
 			func() {
@@ -479,15 +459,6 @@ func (propC19) Exec(p *Plan, x *Ctx) *Outcome {
 			if setupErr == nil {
 				snapBefore = snapshotTmpl(sharedTmpl)
 			}
-		default: // separate
-			for t, tp := range p.Tasks {
-				for i := range tp.Ops {
-					var s c19Slot
-					run.ResetOpSteps()
-					useSeparate(tp.Kind, tp.Text, getSet(tp, 0), ops, &s)
-					ref[t][i] = s.describe()
-				}
-			}
 		}
 	})
 	if setupErr != nil {
@@ -496,6 +467,73 @@ func (propC19) Exec(p *Plan, x *Ctx) *Outcome {
 		out.Event("setup failed")
 		out.CaseSig = HashJSON(p.Setup)
 		return out
+	}
+	// ---- sequential reference: every (task, evaluation) on a separate fresh instance.
+	// order "ref-first" computes it before the concurrent phase, "conc-first" afterwards,
+	// so that lazily initialised shared state is first touched by the concurrent tasks.
+	computeRef := func() {
+		run.Solo(func() {
+			switch p.Scenario {
+			case "shared-calculator":
+				for t, tp := range p.Tasks {
+					for i, o := range tp.Ops {
+						var s c19Slot
+						run.ResetOpSteps()
+						func() {
+							defer func() {
+								if pv := recover(); pv != nil {
+									s.panicV = pv
+								}
+								s.done = true
+							}()
+							c := calculator.NewExpressionCalculator()
+							c.SetVariantOperations(opsManager(ops))
+							if err := c.SetExpression(setupText); err != nil {
+								s.err = err
+								return
+							}
+							s.res, s.err = c.EvaluateUsingVariables(buildVars(getSet(tp, o.Set)))
+						}()
+						ref[t][i] = s.describe()
+					}
+				}
+			case "shared-template":
+				for t, tp := range p.Tasks {
+					for i, o := range tp.Ops {
+						var s c19Slot
+						run.ResetOpSteps()
+						func() {
+							defer func() {
+								if pv := recover(); pv != nil {
+									s.panicV = pv
+								}
+								s.done = true
+							}()
+							tm := mustache.NewMustacheTemplate()
+							if err := tm.SetTemplate(setupText); err != nil {
+								s.err = err
+								return
+							}
+							s.str, s.err = tm.EvaluateWithVariables(buildMap(getSet(tp, o.Set)))
+						}()
+						ref[t][i] = s.describe()
+					}
+				}
+			default: // separate
+				for t, tp := range p.Tasks {
+					for i := range tp.Ops {
+						var s c19Slot
+						run.ResetOpSteps()
+						useSeparate(tp.Kind, tp.Text, getSet(tp, 0), ops, &s)
+						ref[t][i] = s.describe()
+					}
+				}
+			}
+		})
+	}
+	concFirst := p.Cfg("order", "ref-first") == "conc-first"
+	if !concFirst {
+		computeRef()
 	}
 	emptyBefore := FromVariant(variants.Empty).String()
 
@@ -562,9 +600,16 @@ func (propC19) Exec(p *Plan, x *Ctx) *Outcome {
 	} else {
 		ch = NewPolicyChooser(x.R, p.Policy, ntasks, false)
 	}
+	if p.Cfg("coarse", "") == "on" {
+		run.SetCoarse(true)
+	}
 	run.Schedule(ch)
 	if !x.Replay && len(p.Schedule) == 0 {
 		p.Schedule = run.Executed
+	}
+	if concFirst {
+		out.Probes["order_conc_first"]++
+		computeRef()
 	}
 
 	// ---- oracles (after the join; formatting is allowed again)
@@ -763,5 +808,30 @@ func c19MapOrderRepeat(p *Plan, run *Run, out *Outcome) *Outcome {
 		S []Op
 		T []TaskPlan
 	}{p.Setup, p.Tasks})
+	return out
+}
+
+// describeExprTokensNoFmt summarises a compiled program without fmt (task-safe).
+func describeExprTokensNoFmt(toks []*cparsers.ExpressionToken, names []string) string {
+	b := make([]byte, 0, 64)
+	for _, t := range toks {
+		b = strconv.AppendInt(b, int64(t.Type()), 10)
+		b = append(b, ':')
+		b = strconv.AppendInt(b, int64(t.Line()), 10)
+		b = append(b, ':')
+		b = strconv.AppendInt(b, int64(t.Column()), 10)
+		b = append(b, ';')
+	}
+	return string(b) + "|" + joinStrings(names)
+}
+
+func joinStrings(ss []string) string {
+	out := ""
+	for i, s := range ss {
+		if i > 0 {
+			out += ","
+		}
+		out += s
+	}
 	return out
 }
